@@ -25,9 +25,19 @@ var (
 
 func init() {
 	harness.RegisterOracle("C09/strings", func(l *harness.Live) *harness.Failure {
-		_, f := scalarOracle(l)
+		_, f := oracleC09(l)
 		return f
 	})
+}
+
+// oracleC09: the value at the context node, and (one case in three, when the case has a
+// document) the same compiled expression evaluated node by node through the document.
+func oracleC09(l *harness.Live) (harness.Value, *harness.Failure) {
+	want, f := scalarOracle(l)
+	if f != nil || l.Doc == nil || len(l.Doc.Nodes) < 3 {
+		return want, f
+	}
+	return want, sweepContexts(l)
 }
 
 func c09Nontrivial(l *harness.Live, want harness.Value) (bool, []string) {
@@ -77,7 +87,7 @@ func TestC09Rapid(t *testing.T) {
 		g := xgen.NewG(rt, doc)
 		e := g.StrTop(ctx, rapid.IntRange(0, 3).Draw(rt, "depth"))
 		l := &harness.Live{Property: "C09", Check: "C09/strings", Doc: doc, Ctx: ctx, AST: e, Expr: xast.Render(e), Flavour: flavourOf(rt)}
-		want, f := scalarOracle(l)
+		want, f := oracleC09(l)
 		if f != nil {
 			if inconclusive(uC09, f) {
 				return
